@@ -65,9 +65,10 @@ def jobs_for(tier, seed, quick_n=14, timeout=1500):
         rnd = random.Random(seed)
         must = [x for x in fam if x[2].hk == 0 and len(x[2].mbs) >= 2 and x[1] == 3][:3]
         must += [x for x in fam if len(x[2].mbs) == 3][:2]
+        must += [x for x in fam if x[2].blk_err and x[1] == 2][:1]
         must += [x for x in fam if x[2].pt == 2 and x[2].hk == 0 and x[1] == 2 and len(x[2].mbs) == 2 and x[2].mbs[0] == 1][:1]
         rest = [x for x in fam if x not in must]
-        fam = must + rnd.sample(rest, quick_n - len(must))
+        fam = must[:quick_n] + rnd.sample(rest, max(0, quick_n - len(must)))
     gen, jobs = "", []
     for idx, (cls, sh, sc) in enumerate(fam):
         gen += g.core_c1(cls, sh, idx, sc)
@@ -94,3 +95,17 @@ def jobs_for(tier, seed, quick_n=14, timeout=1500):
 
 
 ALL_COVERS = ("step returned Ok", "step returned Err", "P picture predicted from the reference", "I picture decoded", "disposable picture decoded", "format inherited", "failure after a good header")
+
+
+def dquant_jobs(tier, seed, timeout=1500):
+    """decoder-core scenarios with a +Q macroblock (DQUANT tracking: quantizer stays in 1..31)"""
+    fam = [(1, 2, S(0, [(0, 4), mberr("Eof")], pt=0, fk=7)), (1, 2, S(0, [(0, 1), mberr("Eof")], pt=1, fk=7))]
+    if tier == "thorough":
+        fam += [(1, 3, S(0, [(0, 5), mberr("Eof")], pt=1, fk=7)), (2, 2, S(0, [(0, 4), (0, 4), (0, 4), mberr("Eof")], pt=0, fk=7))]
+    gen, jobs = "", []
+    for idx, (cls, sh, sc) in enumerate(fam):
+        gen += g.core_c1(cls, sh, 900 + idx, sc)
+        jobs.append(Job("h263", g.core_c1_name(cls, sh, 900 + idx), timeout, tagged=True, group="decoder-core step: DQUANT", params={"scenario": sc.describe()},
+                        cbmc_args=["--max-field-sensitivity-array-size", "%d" % max(200, sc.nbytes() + 8)], allow_uncovered=ALL_COVERS,
+                        need_any_cover=("step returned Ok", "step returned Err")))
+    return gen, jobs
